@@ -78,9 +78,11 @@ def gen_object(rng, dump, types, tname, depth):
                 calls.append([f["name"], v])
             else:
                 raises.append([f["name"], "boom-" + f["name"]])
+    # `py`: the Python representation (ignored by the Lean side). All objects of one style are instances of ONE class,
+    # whatever their GraphQL type: the type name is instance state.
     if as_dict:
-        return {"t": "dict", "kv": kv}
-    return {"t": "obj", "attrs": kv, "calls": calls, "raises": raises}
+        return {"t": "dict", "kv": kv, "py": rng.choice(["dict", "dict", "dict-subclass"])}
+    return {"t": "obj", "attrs": kv, "calls": calls, "raises": raises, "py": rng.choice(["Obj", "Obj", "SimpleNamespace", "property"])}
 
 
 def pval_to_py(p):
@@ -95,13 +97,21 @@ def pval_to_py(p):
     if t == "list":
         return [pval_to_py(x) for x in p["items"]]
     if t == "dict":
-        return {k: pval_to_py(v) for k, v in p["kv"]}
-
-    class O(object):
-        pass
-    o = O()
+        d = {k: pval_to_py(v) for k, v in p["kv"]}
+        return X.DictSub(d) if p.get("py") == "dict-subclass" else d
+    import types as _t
+    style = p.get("py", "Obj")
+    if style == "SimpleNamespace":
+        o = _t.SimpleNamespace()
+    elif style == "property":
+        o = X.PropObj(None)
+    else:
+        o = PlainObj()
     for k, v in p["attrs"]:
-        setattr(o, k, pval_to_py(v))
+        if k == "__typename__" and style == "property":
+            o._tn = pval_to_py(v)
+        else:
+            setattr(o, k, pval_to_py(v))
     for k, v in p["calls"]:
         setattr(o, k, (lambda val: (lambda context, info, **args: val))(pval_to_py(v)))
     for k, m in p["raises"]:
@@ -109,6 +119,22 @@ def pval_to_py(p):
             raise ResolverError(_m)
         setattr(o, k, raiser)
     return o
+
+
+def with_style(p, style):
+    """copy of a PVal with every object represented in the given Python style"""
+    if p["t"] == "list":
+        return dict(p, items=[with_style(x, style) for x in p["items"]])
+    if p["t"] == "dict":
+        return dict(p, kv=[[k, with_style(v, style)] for k, v in p["kv"]])
+    if p["t"] == "obj":
+        return dict(p, py=style, attrs=[[k, with_style(v, style)] for k, v in p["attrs"]],
+                    calls=[[k, with_style(v, style)] for k, v in p["calls"]])
+    return p
+
+
+class PlainObj(object):
+    """ONE class for every object-typed value of the plain-data stream"""
 
 
 class DataWorld:
@@ -187,6 +213,8 @@ def canon_error_plain(e):
     msg = getattr(e, "message", "")
     if isinstance(e, CoercionError):
         return {"kind": "coercion", "path": path, "locs": locs, "msg": None, "ext": None}
+    if isinstance(getattr(e, "__cause__", None), CoercionError):
+        return X.canon_error(e)        # invalid @skip/@include condition at run time (4e87d3d): kind "directive"
     if isinstance(e, ResolverError) and msg.startswith("boom-"):
         return {"kind": "resolver", "path": path, "locs": locs, "msg": msg, "ext": None}
     return {"kind": "nonnull", "path": path, "locs": locs, "msg": None, "ext": None}
@@ -201,7 +229,9 @@ def run_impl_default(schema, text, root, opname=None):
     except Exception as e:  # noqa
         return {"internal": type(e).__name__, "msg": str(e)[:200]}
     from py_gql.execution.wrappers import _UNSET
-    if r.data is _UNSET or (r.data is None and r.errors and all(getattr(e, "path", None) is None for e in r.errors)):
+    from py_gql.exc import ExecutionError, VariableCoercionError
+    if r.data is _UNSET or (r.data is None and r.errors and all(getattr(e, "path", None) is None for e in r.errors)
+                            and any(isinstance(e, (ExecutionError, VariableCoercionError)) for e in r.errors)):
         return {"abort": "operation"}
     return {"data": X.canon_data(r.data), "errors": [canon_error_plain(e) for e in r.errors]}
 
@@ -244,6 +274,13 @@ FIXED = [
     ("abstract-over-dicts", "{ node { __typename id values ... on Other { pop setdefault } ... on Item { keys get } } nodes { id values } }",
      {"t": "dict", "kv": [["node", {"t": "dict", "kv": [["__typename__", {"t": "leaf", "v": "Other"}], ["id", {"t": "leaf", "v": "o1"}]]}],
                           ["nodes", {"t": "list", "items": [{"t": "dict", "kv": [["__typename__", {"t": "leaf", "v": "Item"}]]}]}]]}),
+    ("abstract-over-one-class", "{ nodes { __typename id values ... on Other { pop setdefault } ... on Item { keys get name } } node { __typename ... on Item { keys } ... on Other { pop } } }",
+     {"t": "obj", "calls": [], "raises": [], "attrs": [
+         ["nodes", {"t": "list", "items": [
+             {"t": "obj", "calls": [], "raises": [], "attrs": [["__typename__", {"t": "leaf", "v": "Other"}], ["id", {"t": "leaf", "v": "o1"}], ["pop", {"t": "leaf", "v": 3}]]},
+             {"t": "obj", "calls": [], "raises": [], "attrs": [["__typename__", {"t": "leaf", "v": "Item"}], ["id", {"t": "leaf", "v": "i1"}], ["keys", {"t": "leaf", "v": "k"}], ["name", {"t": "leaf", "v": "n"}]]},
+             {"t": "obj", "calls": [], "raises": [], "attrs": [["__typename__", {"t": "leaf", "v": "Other"}], ["setdefault", {"t": "leaf", "v": "d"}]]}]}],
+         ["node", {"t": "obj", "calls": [], "raises": [], "attrs": [["__typename__", {"t": "leaf", "v": "Item"}], ["keys", {"t": "leaf", "v": "kk"}]]}]]}),
     ("root-none", "{ keys values items { id } }", {"t": "none"}),
 ]
 
@@ -259,6 +296,10 @@ def run(ctx):
     use_lean = ctx.model_ok and ctx.driver.available()
     batch = []
     todo = [(lab, text, root, None) for lab, text, root in FIXED]
+    for lab, text, root in FIXED:
+        if lab == "abstract-over-one-class":
+            for style in ("SimpleNamespace", "property"):
+                todo.append((lab + ":" + style, text, with_style(root, style), None))
     for i in range(ctx.n(60, 400)):
         op = go.gen_operation(rng, desc, size=rng.randint(1, 3), p_alias=0.0, p_directive=0.1)
         if "$" in op["text"] or ":" in op["text"].split("{", 1)[-1].replace("(if:", ""):
